@@ -179,6 +179,14 @@ def run_scalar(c, out):
             xs, ys = slicer_mod.AreaSlicer._create_slices_from_bounds((np.array(c["xb"], dtype=np.float64),
                                                                        np.array(c["yb"], dtype=np.float64)))
             out["res"] = sl4(xs, ys)
+        elif k == "sanitize":
+            src = mk_area(c["src"], "src")
+            sl = slicer_mod.AreaSlicer(src, src)
+            xb, yb = sl._sanitize_polygon_bounds(tuple(c["bounds"]))
+            out["xb"] = [float(v) for v in xb]
+            out["yb"] = [float(v) for v in yb]
+            xs, ys = sl._create_slices_from_bounds((xb, yb))
+            out["res"] = sl4(xs, ys)
         elif k == "ensure_int":
             s = _subset._ensure_integer_slice(slice(c["start"], c["stop"], c.get("step")))
             out["res"] = {"v": [s.start, s.stop, s.step], "types": [type(v).__name__ for v in (s.start, s.stop, s.step)]}
